@@ -41,7 +41,9 @@ def gen_cases(tier, seed):
                 spec.append({"p": p, "k": "f", "size": {"empty": 0, "tiny": 1, "multi": r.choice([70000, 200001])}[kind], "seed": r.randrange(1, 1 << 30), "segs": None})
         yield {"spec": spec, "driver": driver, "mode": mode, "answer": ans, "okfiles": sorted(r.sample(range(nf), r.randint(1, nf))) if ans == "mixed" else None,
                "args": ["--driver", driver, "-w", str(r.choice([0, 1, 2, 4])), "--block-size", "32KB", "--reflink", r.choice([mode, mode, mode.upper(), mode.capitalize()]), "-r", "src", "dst"],
-               "fs": "tmpfs" if r.random() < 0.2 else "ext4", "sched": r.choice(["free", "pct"]), "sseed": r.randrange(1 << 30)}
+               "fs": "tmpfs" if r.random() < 0.2 else "ext4", "sched": r.choice(["free", "pct"]), "sseed": r.randrange(1 << 30),
+               # verbose logging whose output cannot be written (full disk behind a redirection, reader gone): the mode's contract is unchanged
+               "logfail": r.choice([None, None, None, None, None, "stdout", "stderr", "both"]), "verbose": r.choice(["-v", "-vv", "-vvv"])}
 
 
 def run_case(case):
@@ -64,7 +66,15 @@ def run_case(case):
                 rules.append({"id": "ok%d" % j, "sys": "ioctl", "iocmd": core.FICLONE, "suffix": "/dst/" + files[j]["p"], "action": "cloneok"})
             rules.append({"id": "no", "sys": "ioctl", "iocmd": core.FICLONE, "under": U, "action": "fault", "errno": EOPNOTSUPP})
         plan = {"log_mode": "full", "rules": rules, "sched": case["sched"], "sched_seed": case["sseed"], "pct_horizon": 300}
-        run = core.run_xcp(sb, case["args"], plan)
+        args_ = list(case["args"])
+        if case.get("logfail"):
+            args_.insert(0, case["verbose"])
+            if case["logfail"] in ("stdout", "both"):
+                plan["stdout_to"] = "/dev/full"
+            if case["logfail"] in ("stderr", "both"):
+                plan["stderr_to"] = "/dev/full"
+            res["counters"]["runs-with-unwritable-log"] = 1
+        run = core.run_xcp(sb, args_, plan)
         if run.verdict != "exited":
             res["inconc"].append("run-" + run.verdict)
             return res
@@ -73,7 +83,7 @@ def run_case(case):
         files = [m for m in mapping if m["rec"]["k"] == "f"]
         mode = case["mode"]
         tag = "driver=%s mode=%s answer=%s exit=%d fs=%s" % (case["driver"], mode, ans, run.status, case["fs"])
-        sig0 = "%s:%s:%s" % (case["driver"], mode, ans)
+        sig0 = "%s:%s:%s%s" % (case["driver"], mode, ans, ":unwritable-log" if case.get("logfail") else "")
         # per destination path: ordered list of (kind, seq, ret)
         seqs = {}
         nclone = 0
@@ -121,7 +131,7 @@ def run_case(case):
             for frag, msg in model.check_mirror(pre, post, files):
                 res["viol"].append({"sig": sig0 + ":" + frag, "what": "exit 0 but " + msg + "; " + tag})
         res["counters"]["exit0" if run.exit0 else "nonzero"] = 1
-        res["evals"].append({"key": [case["driver"], mode, ans, "exit0" if run.exit0 else "nonzero"],
+        res["evals"].append({"key": [case["driver"], mode, ans, "exit0" if run.exit0 else "nonzero"] + (["unwritable-log"] if case.get("logfail") else []),
                              "sample": {"args": case["args"], "answer": ans, "rules": rules[:3], "exit": run.status, "clone_requests": nclone,
                                         "per_file": {p: [e[0] + ":" + str(e[2]) for e in ev[:4]] for p, ev in list(seqs.items())[:3]}}})
     return res
